@@ -43,14 +43,15 @@ func (s *RawStore) Apply(set *trienode.NodeSet) {
 }
 
 // Listing returns the account trie node key space of a path-scheme store: path -> blob.
+// The database holds nothing but this trie, so every key under the account-trie-node prefix
+// is a node (rawdb.ResolveAccountTrieNodeKey is not used: it rejects 64-nibble paths, which a
+// trie over 32-byte keys produces when two keys differ in their last nibble only).
 func (s *RawStore) Listing() map[string][]byte {
 	out := map[string][]byte{}
 	it := s.DB.NewIterator(rawdb.TrieNodeAccountPrefix, nil)
 	defer it.Release()
 	for it.Next() {
-		if ok, path := rawdb.ResolveAccountTrieNodeKey(it.Key()); ok {
-			out[string(path)] = common.CopyBytes(it.Value())
-		}
+		out[string(it.Key()[len(rawdb.TrieNodeAccountPrefix):])] = common.CopyBytes(it.Value())
 	}
 	return out
 }
